@@ -166,6 +166,7 @@ fn new_member(h: &mut Hist, p: &Profile, nested_pct: u32) -> (Member, Cid) {
                     engine_a::gen_script(w, p, *st, never, p.err_pct)
                 }),
                 always_ready: false,
+                resumable: false,
             })
             .collect();
         let mut b = Builder { scripts: VecDeque::from(scripts) };
